@@ -409,19 +409,42 @@ def run_harness(cases, workdir, timeout=600, name="i", stall=None):
     return obs
 
 
-def run_driver(lines, workdir, name="m", timeout=900):
-    """lines: list of (id, op, args) -> dict id -> observation"""
-    path = os.path.join(workdir, "%s.cases" % name)
-    _write_cases(path, ["%s\t%s\t%s" % (i, op, "\t".join(args)) for (i, op, args) in lines])
-    p = subprocess.run(["bash", "-c", "ulimit -s unlimited 2>/dev/null; exec %s %s" % (DRIVER_BIN, path)], stdout=subprocess.PIPE, stderr=subprocess.PIPE, timeout=timeout)
+MODEL_TIMEOUTS = []   # (shard size) of model shards that ran out of time in this process: reported in the evidence
+
+
+def _run_driver_shard(args):
+    path, timeout = args
+    try:
+        p = subprocess.run(["bash", "-c", "ulimit -s unlimited 2>/dev/null; exec %s %s" % (DRIVER_BIN, path)], stdout=subprocess.PIPE, stderr=subprocess.PIPE, timeout=timeout)
+        return p.stdout, p.returncode, p.stderr
+    except subprocess.TimeoutExpired as e:
+        return (e.stdout or b""), -9, b"timeout"
+
+
+def run_driver(lines, workdir, name="m", timeout=900, shard=4000):
+    """lines: list of (id, op, args) -> dict id -> observation.  The case file is cut into shards run in parallel; a
+    shard that runs out of time leaves its unanswered cases without a model observation (they are then not compared)
+    instead of taking the whole check down."""
+    from concurrent.futures import ThreadPoolExecutor
+    jobs = []
+    for k in range(0, len(lines), shard):
+        path = os.path.join(workdir, "%s_%d.cases" % (name, k // shard))
+        _write_cases(path, ["%s\t%s\t%s" % (i, op, "\t".join(args)) for (i, op, args) in lines[k:k + shard]])
+        jobs.append((path, timeout))
     res = {}
-    for line in p.stdout.decode("utf-8", "replace").split("\n"):
-        if "\t" not in line:
-            continue
-        i, o = line.split("\t", 1)
-        res[i] = o
-    if p.returncode != 0:
-        res["__error__"] = "driver exit %d: %s" % (p.returncode, p.stderr.decode("utf-8", "replace")[-500:])
+    with ThreadPoolExecutor(max_workers=min(12, max(1, len(jobs)))) as ex:
+        outs = list(ex.map(_run_driver_shard, jobs))
+    for (out, rc, err), (path, _) in zip(outs, jobs):
+        for line in out.decode("utf-8", "replace").split("\n"):
+            if "\t" not in line:
+                continue
+            i, o = line.split("\t", 1)
+            res[i] = o
+        if rc == -9:
+            MODEL_TIMEOUTS.append(path)
+            log("model shard timed out:", path)
+        elif rc != 0:
+            res["__error__"] = "driver exit %d: %s" % (rc, err.decode("utf-8", "replace")[-500:])
     return res
 
 
